@@ -174,6 +174,23 @@ def check_add(ctx, repo, cls):
                 elif isinstance(g, ast.Compare) and len(g.ops) == 1 and isinstance(g.ops[0], (ast.Eq, ast.NotEq)) \
                         and {text(g.left), text(g.comparators[0])} == {a0, a1}:
                     it_eq = e.val if isinstance(g.ops[0], ast.Eq) else not e.val
+                elif isinstance(g, ast.Call) and len(g.args) == 2 and {text(g.args[0]), text(g.args[1])} == {a0, a1}:
+                    # a helper decides "same cost vector": it must be exact equality
+                    hn = (access_path(g.func) or "").split(".")[-1]
+                    hf = cls.methods.get(hn) or mod.functions.get(hn)
+                    exact = None
+                    if hf is not None:
+                        ht = text(hf)
+                        if any(k_ in ht for k_ in ("isclose", "allclose", "abs(", "fabs(", "tol", "round(")):
+                            exact = False
+                        else:
+                            rr = [x for x in stmts_of(hf) if isinstance(x, ast.Return)]
+                            exact = True if (len(rr) == 1 and isinstance(rr[0].value, ast.Compare) and isinstance(rr[0].value.ops[0], ast.Eq)) else None
+                    if exact is False:
+                        bad["R1"] = bad["R1"] or (p, "the duplicate test %s compares the cost vectors with a tolerance: a distinct, mutually non-dominated cost vector closer than the tolerance to a member is rejected as 'already contained'" % text(g))
+                        it_eq = e.val
+                    elif exact:
+                        it_eq = e.val
             elif e.kind == "stmt":
                 s = e.node
                 if isinstance(s, ast.Assign) and len(s.targets) == 1 and isinstance(s.targets[0], ast.Name) and is_const(s.value) \
